@@ -289,5 +289,7 @@ Definition reread_put (n : nat) : list mop :=
   [AtomicSub (RC n) 1; Load (RC n); BranchDestroyIfResultZero n].
 Definition local_seed : list mop :=
   [Load Seed; IfUnset [CallRandom; RetryIfUnset; CAS Seed (-1)]; ReadForHash Local].
+Definition noretry_seed : list mop :=
+  [Load Seed; IfUnset [CallRandom; CAS Seed (-1)]; ReadForHash Shared].
 Definition store_seed : list mop :=
   [Load Seed; IfUnset [CallRandom; RetryIfUnset; StoreFresh Seed]; ReadForHash Shared].
